@@ -1132,6 +1132,12 @@ func verifyPDR(pdr pdr) error {
 		return ErrUnsupported("precedence greater than 65535", pdr.precedence)
 	}
 
+	// the applications table has ternary and range fields: its entries need a non-zero priority,
+	// and the priority is 65535 - precedence
+	if pdr.precedence == math.MaxUint16 && !pdr.IsAppFilterEmpty() {
+		return ErrUnsupported("application filter with precedence 65535", pdr.precedence)
+	}
+
 	return nil
 }
 
